@@ -159,6 +159,10 @@ class ScriptPeer:
             put(D0, ('data', bad))
         elif letter == 'foreign':
             put(D0, ('data', self._foreign(rq)))
+        elif letter.startswith('exc@'):
+            # exception frame (code 2) delayed by a fraction of the timeout, e.g. 'exc@.5T'
+            f = self._exc(rq, self.exc_code)
+            put(float(letter[4:-1]) * T, ('data', f if f is not None else g))
         elif letter.startswith('exc'):
             code = int(letter[3:]) if letter[3:] else self.exc_code
             f = self._exc(rq, code)
